@@ -339,13 +339,13 @@ async fn run_many_expire(cfg: &BurstCfg, out: &mut RunOut, text: &mut String) {
     text.push_str(&format!("responses transmitted for expired requests: {late:?}\n"));
     if !late.is_empty() {
         out.violations.push(viol(
-            "C06-burst-response-after-deadline",
+            "burst-response-after-deadline",
             format!("{} requests expired together (handlers finished only afterwards) and a fresh request arrived: responses for {} of them were transmitted after their deadline (first id {})", cfg.n, late.len(), late[0]),
         ));
     }
     let inf = reqs.channel().in_flight_requests();
     if inf > 1 {
-        out.violations.push(viol("C06-burst-not-expired", format!("{} requests expired together: in_flight_requests() still reports {inf} after the channel went idle past the deadline (1 fresh request is in flight)", cfg.n)));
+        out.violations.push(viol("burst-not-expired", format!("{} requests expired together: in_flight_requests() still reports {inf} after the channel went idle past the deadline (1 fresh request is in flight)", cfg.n)));
     }
 }
 
